@@ -31,6 +31,56 @@ def abstract(s):
     return NS_RE.sub(lambda m: "X" + (m.group(2) or ""), s)
 
 
+INLINE_CONST_LOCALS = True
+_INL_CACHE = {}
+
+
+def inlinable_locals(P, F):
+    """locals that merely name a value: const / constexpr / reference-to-const locals with a side-effect-free initialiser.
+    Introducing or removing such a name changes no behaviour, so canonical forms are written over the initialisers."""
+    cache = _INL_CACHE.get((id(P), F.key))
+    if cache is not None:
+        return cache
+    out = {}
+    loopvars = set()
+    for n in F.walk():
+        if n.get("k") == "CXXForRangeStmt" and n.get("c") and n["c"][0] is not None:
+            loopvars.add(n["c"][0].get("r"))
+        if n.get("k") == "ForStmt" and n.get("c") and n["c"][0] is not None:
+            for v in F.walk(n["c"][0]):
+                if v.get("k") == "VarDecl":
+                    loopvars.add(v.get("r"))
+    for n in F.walk():
+        if n.get("k") != "VarDecl" or not n.get("c") or n.get("r") in loopvars:
+            continue
+        d = P.d(n["r"])
+        if d.get("storage") not in ("local",):
+            continue
+        t = n.get("t", "")
+        if not (t.startswith("const ") or d.get("const")):
+            continue
+        bare = t.replace("const ", "").strip()
+        # plain values and aliases only: a struct-valued local (the result record of a kernel call) stays a name
+        if not (norm.is_arith(bare) or bare.endswith("&") or bare in ("std::size_t", "size_t", "unsigned long", "std::string")):
+            continue
+        init = n["c"][0]
+        pure = True
+        for y in F.walk(init):
+            ky = y.get("k")
+            if ky in ("BinaryOperator", "CompoundAssignOperator") and y.get("op") in norm.ASSIGN_OPS:
+                pure = False
+            elif ky == "UnaryOperator" and y.get("op") in ("++", "--"):
+                pure = False
+            elif ky in ("CXXMemberCallExpr", "CXXOperatorCallExpr") and y.get("callee") and P.d(y["callee"]).get("k") == "CXXMethod" and not P.d(y["callee"]).get("const"):
+                pure = False
+            elif ky in ("LambdaExpr", "CXXNewExpr", "CXXThrowExpr"):
+                pure = False
+        if pure:
+            out[n["r"]] = init
+    _INL_CACHE[(id(P), F.key)] = out
+    return out
+
+
 class Canon:
     """canonical rendering of one function body"""
 
@@ -41,6 +91,8 @@ class Canon:
         for i, p in enumerate(F.params):
             self.alias[p] = ("p%d" % i) if alias_params else P.d(p).get("n", "p%d" % i)
         self.nloc = 0
+        # where the caller compares by local names (alias_locals=False) the names are anchors and stay
+        self.inl = inlinable_locals(P, F) if (INLINE_CONST_LOCALS and alias_locals) else {}
 
     def name(self, key, d):
         if key in self.alias:
@@ -67,6 +119,8 @@ class Canon:
         c = n.get("c") or []
         r = lambda x: self.e(x, depth + 1)
         if k == "DeclRefExpr":
+            if n["r"] in self.inl:
+                return r(self.inl[n["r"]])      # a named constant / alias stands for its initialiser
             return self.name(n["r"], P.d(n["r"]))
         if k == "MemberExpr":
             base = c[0] if c else None
@@ -171,6 +225,8 @@ class Canon:
         elif k == "DeclStmt":
             for v in c:
                 if v.get("k") == "VarDecl":
+                    if v["r"] in self.inl:
+                        continue
                     d = self.P.d(v["r"])
                     nm = self.name(v["r"], d)
                     init = self.e(v["c"][0]) if v.get("c") else ""
